@@ -266,6 +266,25 @@ REGRESSION = {  # case tail -> expected vec_cor of the (single) application
     F_C09_1_V: [Fr(0), Fr(0)],
     F_C09_1_W: [Fr(5, 8), Fr(3, 8)],
 }
+def boundary_cases(tier):
+    """large level counts: W-cycle with 2^L coarse solves for L = 8, 10, 12 (13 levels), F and V on the same
+    hierarchy, also on sub-ranges with top > 0; 1x1 level systems, only the coarse solver (1/2) present, so the
+    values stay small dyadic rationals while the call log has up to ~40000 events"""
+    cases = []
+    nl = 13
+    levels = []
+    for l in range(nl):
+        lev = {"n": 1, "A": [[Fr(1)]], "f": []}
+        if l + 1 < nl:
+            lev["P"], lev["R"] = [[Fr(1)]], [[Fr(1)]]
+        lev["s"] = [None, None, None, [[Fr(1, 2)]]]
+        levels.append(lev)
+    for (top, crs) in ((4, 12), (2, 12), (0, 12)) if tier == "quick" else ((4, 12), (3, 11), (2, 12), (1, 12), (0, 12)):
+        cases.append(fmt_case("mg", [1] * nl, levels, [(2, 0, top, crs, [Fr(1)]), (1, 0, top, crs, [Fr(1)]),
+                                                         (0, 0, top, crs, [Fr(1)])]))
+    return cases
+
+
 CORPUS = [
     # regression inputs of finding F-C09-1 (vanishing correction with adaptive coarse grid correction)
     "mg " + F_C09_1_V,
@@ -737,6 +756,8 @@ def describe(case):
             keys.append("range:invalid")
             continue
         keys.append("cycle:%s L=%d" % ("VFW"[cyc], rg[1] - rg[0]))
+        if rg[0] > 0:
+            keys.append("cycle:%s top>0" % "VFW"[cyc])
         keys.append("cgc:%s" % ["fixed", "minEnergy", "minDefect"][cgc])
         keys.append("range:%s" % ("full" if rg == (0, nl - 1) else "sub"))
         if crs < 0:
@@ -782,7 +803,7 @@ def main(argv):
         if cases[0].startswith("rate"):
             rate_cases, cases = cases, []
     else:
-        cases = CORPUS + enum_control_cases() + gen_cases(rng, 4500 if args.tier == "quick" else 80000)
+        cases = CORPUS + boundary_cases(args.tier) + enum_control_cases() + gen_cases(rng, 4500 if args.tier == "quick" else 80000)
         if args.tier == "thorough":
             rate_cases = ["rate %d %d %d" % (nl, cyc, cgc) for cyc in range(3) for cgc in range(3) for nl in range(2, 9)]
             rate_cases += ["rate2d %d %d %d" % (nl, cyc, cgc) for cyc in range(3) for cgc in range(3) for nl in range(2, 8)]
